@@ -938,18 +938,36 @@ func c10R4(c *Ctx, r *Report) {
 		// wildcard: Labels-- on the HasPrefix(h0.Name, "*") edge
 		okWild := false
 		wildProblem := ""
+		// the count minus one, computed in the field itself or in a local that is stored into the field afterwards
+		labelsStored := map[ssa.Value]bool{}
 		allInstrs(fn, func(in ssa.Instruction) {
-			st, isSt := in.(*ssa.Store)
-			if !isSt || !fieldPathOf(isValue(rr), "Labels")(st.Addr) {
-				return
+			if st, isSt := in.(*ssa.Store); isSt && fieldPathOf(isValue(rr), "Labels")(st.Addr) {
+				for o := range sliceOf(st.Val) {
+					labelsStored[o] = true
+				}
 			}
-			b, ok := st.Val.(*ssa.BinOp)
-			if !ok || b.Op != token.SUB {
+		})
+		allInstrs(fn, func(in ssa.Instruction) {
+			b, ok := in.(*ssa.BinOp)
+			if !ok || b.Op != token.SUB || !labelsStored[b] {
 				return
 			}
 			if k, isK := constIntOf(b.Y); !isK || k != 1 {
 				return
 			}
+			fromCount := false
+			for o := range sliceOf(b.X) {
+				if call, isCall := o.(*ssa.Call); isCall && calleeNameSSA(&call.Call) == "CountLabel" {
+					fromCount = true
+				}
+				if fieldPathOf(isValue(rr), "Labels")(o) {
+					fromCount = true
+				}
+			}
+			if !fromCount {
+				return
+			}
+			st := b
 			if len(guardsMissing(fn, st.Block(), []Guard{{Op: "call", A: func(v ssa.Value) bool {
 				call, ok := v.(*ssa.Call)
 				if !(ok && calleeNameSSA(&call.Call) == "strings.HasPrefix" && anyIn(sliceOf(call.Call.Args[0]), fieldPathOf(isH0, "Name"))) {
